@@ -293,6 +293,75 @@ func Observe(qf qframe.QFrame) Frame {
 	return f
 }
 
+// observeSlices is a second observation path: every column through View.Slice()
+// instead of View.ItemAt.
+func observeSlices(qf qframe.QFrame) Frame {
+	if qf.Err != nil {
+		return Frame{Err: true, ErrText: qf.Err.Error(), N: qf.Len()}
+	}
+	names := qf.ColumnNames()
+	typs := qf.ColumnTypes()
+	f := Frame{N: qf.Len(), Cols: make([]Col, len(names))}
+	strs := func(v []*string) []Cell {
+		cells := make([]Cell, len(v))
+		for r, p := range v {
+			if p == nil {
+				cells[r] = Null()
+			} else {
+				cells[r] = S(strings.Clone(*p))
+			}
+		}
+		return cells
+	}
+	for i, name := range names {
+		k := kindOf(typs[i])
+		col := Col{Name: name, Kind: k}
+		switch k {
+		case Int:
+			for _, x := range qf.MustIntView(name).Slice() {
+				col.Cells = append(col.Cells, I(x))
+			}
+		case Float:
+			for _, x := range qf.MustFloatView(name).Slice() {
+				col.Cells = append(col.Cells, F(x))
+			}
+		case Bool:
+			for _, x := range qf.MustBoolView(name).Slice() {
+				col.Cells = append(col.Cells, B(x))
+			}
+		case String:
+			col.Cells = strs(qf.MustStringView(name).Slice())
+		case Enum:
+			col.Cells = strs(qf.MustEnumView(name).Slice())
+		}
+		f.Cols[i] = col
+	}
+	return f
+}
+
+// ObserveAs observes a frame that was constructed to denote want and returns
+// the content the case should take as its input. Normally that is the ItemAt
+// observation (equal to want). If it differs from want, but the frame read
+// through the other public path (View.Slice) is exactly want, the frame does
+// denote want and want is the input: an operation that then acts on other
+// content violates its property even if it agrees with ItemAt. If neither path
+// yields want (the Sort/Filter/Slice used for construction is broken) the
+// observation is the input, as before, so that checks of other operations do
+// not raise an alarm about a defect that is not theirs.
+func ObserveAs(qf qframe.QFrame, want Frame) Frame {
+	obs := Observe(qf)
+	if obs.Err || want.Err {
+		return obs
+	}
+	if Diff(want, obs) == "" {
+		return obs
+	}
+	if alt := observeSlices(qf); Diff(want, alt) == "" {
+		return alt
+	}
+	return obs
+}
+
 // ---------------------------------------------------------------------------
 // building real frames
 
